@@ -1,5 +1,5 @@
-\* exhaustive: every family, all documents within two edits of the family's base document
-CONSTANTS MaxLevel = 2
+\* exhaustive: every family, all documents within QuickDepth(family) edits of the family's base document(s)
+CONSTANT MaxLevel <- QuickDepth
 CONSTANT Families = {"links", "comp", "stack", "pins", "core"}
 INIT Init
 NEXT Next
